@@ -4,6 +4,7 @@ package main
 
 import (
 	"fmt"
+	"sort"
 	"strings"
 	"time"
 
@@ -49,6 +50,13 @@ type c10Input struct {
 	// Logfmt: the JSON indexes point into c10LogfmtLines and the stage is `| logfmt` (keys are used as label names as
 	// they are written: names that differ only in characters a sanitiser would map to one another stay distinct)
 	Logfmt bool `json:"logfmt,omitempty"`
+	// Traces (with Sets): record i carries trace id Traces[i%len] ("" = none): an id that is set is a label
+	Traces []string `json:"traces,omitempty"`
+	// Host: every record of the JSON / logfmt families carries the resource attribute host=node-1 (one shared map per
+	// stream in the mock, as in the Docker querier)
+	Host bool `json:"host,omitempty"`
+	// Exprs: the JSON family uses `| json p="o", q="o", u="o.name"` (two labels for one object, one for a field of it)
+	Exprs bool `json:"exprs,omitempty"`
 	// Turns: the range of the aggregation is Turns milliseconds instead of 10 s (records are 1 s apart, the range
 	// query has one step per second): with 500 the series take turns, one per step; from 1000 on windows overlap
 	// and expire partially.
@@ -60,20 +68,26 @@ var c10JSONLines = []string{
 	`{"code":200}`, `{"code":500}`, `{"code":"200"}`, `{"code":200,"ok":true}`, `{"code":200,"ok":false}`, `{"ok":true}`, `{"ok":"true"}`, `{"code":-1}`, `{"code":0}`, `{"code":""}`,
 }
 
-var c10LogfmtLines = []string{`a.b=1`, `a_b=1`, `a.b=1 a_b=2`, `a_b=1 a.b=2`, `a-b=1`, `a.b=2`, `a_b=`, `a.b=`}
+var c10LogfmtLines = []string{`a.b=1`, `a_b=1`, `a.b=1 a_b=2`, `a_b=1 a.b=2`, `a-b=1`, `a.b=2`, `a_b=`, `a.b=`, `host=upstream a_b=1`, `host=node-1`}
+
+// c10ExprLines: documents for `| json p="o", q="o", u="o.name"`; one of them is cut below the top level.
+var c10ExprLines = []string{`{"o":{"name":"bob"}}`, `{"o":{"name":"bob"},"x":1}`, `{"o":{"name":"al"}}`, `{"o":{"name":"bob"`, `{"o":"flat"}`, `{"x":{"o":1}}`}
 
 var c10Groupings = map[string]*refmodel.Grouping{
-	"":           nil,
-	"by(a)":      {Labels: []string{"a"}},
-	"by(a,c)":    {Labels: []string{"a", "c"}},
-	"by(ab)":     {Labels: []string{"ab"}},
-	"without(a)": {Without: true, Labels: []string{"a"}},
-	"without(c)": {Without: true, Labels: []string{"c"}},
-	"by()":       {Labels: []string{}},
-	"without()":  {Without: true, Labels: []string{}},
+	"":             nil,
+	"by(a)":        {Labels: []string{"a"}},
+	"by(a,c)":      {Labels: []string{"a", "c"}},
+	"by(ab)":       {Labels: []string{"ab"}},
+	"without(a)":   {Without: true, Labels: []string{"a"}},
+	"without(c)":   {Without: true, Labels: []string{"c"}},
+	"by()":         {Labels: []string{}},
+	"by(trace_id)": {Labels: []string{"trace_id"}},
+	"by(host)":     {Labels: []string{"host"}},
+	"without()":    {Without: true, Labels: []string{}},
 }
 
 var c10JSONGroupings = map[string]*refmodel.Grouping{
+	"by(host)": {Labels: []string{"host"}}, "by(p,q,u)": {Labels: []string{"p", "q", "u"}}, "by(u)": {Labels: []string{"u"}},
 	"by(code)": {Labels: []string{"code"}}, "by(code,ok)": {Labels: []string{"code", "ok"}}, "by(ok)": {Labels: []string{"ok"}},
 	"without(msg)": {Without: true, Labels: []string{"msg"}}, "without(msg,ok)": {Without: true, Labels: []string{"msg", "ok"}},
 }
@@ -93,12 +107,22 @@ func c10Build(in c10Input) ([]mockq.Rec, refmodel.Expr) {
 		if in.Logfmt {
 			line = c10LogfmtLines[li]
 		}
-		data = append(data, mockq.Rec{TS: (c09Base + int64(i)) * sec, Line: line})
+		if in.Exprs {
+			line = c10ExprLines[li%len(c10ExprLines)]
+		}
+		var labels []mockq.KV
+		if in.Host {
+			labels = []mockq.KV{{K: "host", V: "node-1"}}
+		}
+		data = append(data, mockq.Rec{TS: (c09Base + int64(i)) * sec, Line: line, Labels: labels})
 	}
 	if len(in.JSON) > 0 {
 		js := []refmodel.Stage{&refmodel.JSONStage{}, &refmodel.Drop{Items: []refmodel.DKItem{{Label: "msg"}}}}
 		if in.Logfmt {
 			js[0] = &refmodel.LogfmtStage{}
+		}
+		if in.Exprs {
+			js[0] = &refmodel.JSONStage{Exprs: [][2]string{{"p", "o"}, {"q", "o"}, {"u", "o.name"}}}
 		}
 		var e refmodel.Expr
 		switch in.Shape {
@@ -119,7 +143,11 @@ func c10Build(in c10Input) ([]mockq.Rec, refmodel.Expr) {
 		if len(sets) > 12 {
 			ts = c09Base*sec + int64(i)*1e6 // many series: all of them inside the first window
 		}
-		data = append(data, mockq.Rec{TS: ts, Line: "", Labels: labels})
+		rec := mockq.Rec{TS: ts, Line: "", Labels: labels}
+		if len(in.Traces) > 0 {
+			rec.Trace = in.Traces[i%len(in.Traces)]
+		}
+		data = append(data, rec)
 	}
 	g := c10Groupings[in.Grouping]
 	var e refmodel.Expr
@@ -209,14 +237,24 @@ func c10Check(r *vkit.Run, in c10Input, replay []int) {
 	}
 	times := gridTimes(start, end, step)
 	exp, _, _, _ := expectGrid(expr, data, times, refmodel.Convention{})
+	opaque := in.Exprs && (in.Grouping == "by(p,q,u)" || in.Grouping == "without(msg)" || in.Shape == "count")
 	// conservation, stated on its own: per step, counts over all series add up to the samples in the window
 	outcomes := map[string]bool{}
 	body := func(c *vsched.Ctx) {
 		r.BeginChoices("C10", in, c.Prefix())
 		res := evalEngineCtx(c, mockq.New(data), expr.Text(), start, end, time.Duration(step))
 		r.Eval()
-		outcomes[res.String()] = true
-		if why := compare(res, exp, nil); why != "" {
+		canon := res
+		canon.Series = append([]engSeries(nil), res.Series...)
+		sort.Slice(canon.Series, func(i, j int) bool { return canon.Series[i].Labels.Key() < canon.Series[j].Labels.Key() })
+		outcomes[canon.String()] = true // (the order of the series inside an answer is not part of it)
+		if opaque {
+			// labels whose values are whole JSON objects: their rendering is not modelled; what is required is one answer,
+			// whatever the iteration order of the maps involved (below), without an error
+			if res.Err != "" || res.Panic != "" {
+				r.Fail("C10", in, c.TrimmedChoices(), map[string]any{"query": expr.Text(), "result": res.String()}, nil, expr.Text()+": "+res.String(), "")
+			}
+		} else if why := compare(res, exp, nil); why != "" {
 			r.Fail("C10", in, c.TrimmedChoices(), map[string]any{"query": expr.Text(), "result": res.String()}, exp,
 				fmt.Sprintf("%s over label sets %v: %s", expr.Text(), c10DescribeIn(in), why), "")
 		}
@@ -231,6 +269,14 @@ func c10Check(r *vkit.Run, in c10Input, replay []int) {
 	st := vsched.Explore(in.Bound, 0, body, func(*vsched.Ctx) bool { return !r.Stop() })
 	r.Step(int(st.Points) + int(st.Executions))
 	r.Count("map_order_executions", st.Executions)
+	if opaque && len(outcomes) > 1 {
+		var all []string
+		for k := range outcomes {
+			all = append(all, k)
+		}
+		sort.Strings(all)
+		r.Fail("C10/map-order", in, nil, all, nil, fmt.Sprintf("%s: %d different answers under different map iteration orders", expr.Text(), len(outcomes)), "")
+	}
 	r.Count("executions_with_rotated_iteration", st.Deviating)
 	if int64(st.MaxPoints) > r.Counters["max_map_iterations_per_eval"] {
 		r.Counters["max_map_iterations_per_eval"] = int64(st.MaxPoints)
@@ -301,6 +347,11 @@ func c10Colliding() [][2][]mockq.KV {
 		out = append(out, [2][]mockq.KV{{{K: "a", V: "x" + sep + "n" + sep + "y" + sep}}, {{K: "a", V: "x"}, {K: "n", V: "y"}}})
 		out = append(out, [2][]mockq.KV{{{K: "a", V: sep + "n" + sep}}, {{K: "a", V: ""}, {K: "n", V: ""}}})
 	}
+	// attribute names that need sanitising and share a tail, a middle or a head (one name each after sanitising, or not)
+	out = append(out, [2][]mockq.KV{{{K: "http.status", V: "500"}}, {{K: "grpc.status", V: "500"}}})
+	out = append(out, [2][]mockq.KV{{{K: "a.b", V: "1"}}, {{K: "a/b", V: "1"}, {K: "c.b", V: "1"}}})
+	out = append(out, [2][]mockq.KV{{{K: "x.y.z", V: "1"}}, {{K: ".y.z", V: "1"}}})
+	out = append(out, [2][]mockq.KV{{{K: "0a", V: "1"}}, {{K: ".0a", V: "1"}, {K: "é0a", V: "1"}}})
 	// long label sets that differ only at their very end (a key computed over a bounded prefix merges them)
 	for _, n := range []int{100, 300, 600, 5000, 70000} {
 		long := strings.Repeat("L", n)
@@ -398,6 +449,26 @@ func c10Run(r *vkit.Run) {
 		}
 		r.NonTrivial()
 	}
+	// trace ids: full width, 64-bit ids padded to 128 bits on either side, none: every assignment to three records
+	// of one label set and of two
+	{
+		ids := []string{"", "0102030405060708090a0b0c0d0e0f10", "000000000000000000000000000000ab", "ab000000000000000000000000000000", "00000000000000000000000000000000"}
+		for a := range ids {
+			for b := range ids {
+				for c := range ids {
+					idx++
+					if !r.Mine(idx) || r.Stop() {
+						continue
+					}
+					tr := []string{ids[a], ids[b], ids[c]}
+					for _, rg := range []bool{false, true} {
+						c10Check(r, c10Input{Sets: []int{5, 5, 5}, Traces: tr, Shape: "count", Range: rg, Bound: 0}, nil)
+						c10Check(r, c10Input{Sets: []int{5, 0, 5}, Traces: tr, Shape: "sum-count", Grouping: "by(trace_id)", Range: rg, Bound: 0}, nil)
+					}
+				}
+			}
+		}
+	}
 	// label values that are JSON numbers / booleans / strings: every tuple of 1..2 (thorough: 3) lines
 	var jt [][]int
 	var jrec func(cur []int)
@@ -428,6 +499,21 @@ func c10Run(r *vkit.Run) {
 			if ok {
 				c10Check(r, c10Input{JSON: lf, Logfmt: true, Shape: "count", Range: rg, Bound: 1}, nil)
 				c10Check(r, c10Input{JSON: lf, Logfmt: true, Shape: "sum-count", Grouping: "without(msg)", Range: rg, Bound: 1}, nil)
+			}
+			if ok {
+				// the same over records that carry a resource attribute one of the lines names, too
+				c10Check(r, c10Input{JSON: lf, Logfmt: true, Host: true, Shape: "sum-count", Grouping: "by(host)", Range: rg, Bound: 0}, nil)
+				c10Check(r, c10Input{JSON: lf, Logfmt: true, Host: true, Shape: "count", Range: rg, Bound: 0}, nil)
+			}
+			ex, okx := true, true
+			for _, v := range tu {
+				okx = okx && v < len(c10ExprLines)
+			}
+			if ex && okx {
+				for _, g := range []string{"by(p,q,u)", "by(u)", "without(msg)"} {
+					c10Check(r, c10Input{JSON: tu, Exprs: true, Shape: "sum-count", Grouping: g, Range: rg, Bound: 1}, nil)
+				}
+				c10Check(r, c10Input{JSON: tu, Exprs: true, Shape: "count", Range: rg, Bound: 1}, nil)
 			}
 			for _, g := range []string{"by(code)", "by(code,ok)", "by(ok)", "without(msg)", "without(msg,ok)"} {
 				c10Check(r, c10Input{JSON: tu, Shape: "sum-count", Grouping: g, Range: rg, Bound: 1}, nil)
